@@ -5,7 +5,10 @@
   `proceed_next_path_component`, `filter_for_entities`, `node_matches`, `create_values_from_nodes`) and
   `QueryResult`.  The path comes from the parser model (`Lang/PathParser.lean`, property C15).
 
-  Modelled as the code is AFTER the two fixes recorded for C16 (KNOWN_FINDINGS F16a / F16b):
+  Modelled as the code is AFTER the three fixes recorded for C16 (KNOWN_FINDINGS F16a / F16b / F16c):
+    * `query_compressed_data` returns the empty result when the `@` selector designates no subset, before it
+      filters the shared node tree (the original filtered first and raised when the path fails on the tree, while
+      `query_uncompressed_data` — a loop over no subset — never looks at the path);
     * a replication is filtered repetition by repetition (`filter_for_nodes` on each block of `n_members`
       nodes); the original computed the matching POSITIONS on the first repetition only and applied them to all
       repetitions, which returns values of other ids when the labels differ between repetitions
@@ -387,7 +390,8 @@ def query (m : QMsg) (p : Path) : CM QResult :=
   | .error e => .error e
   | .ok idxs =>
     if m.compressed then
-      match m.trees[0]?, m.outs[0]? with
+      if idxs.isEmpty then .ok ⟨[]⟩                     -- no subset selected: empty, the path is not looked at (fix F16c)
+      else match m.trees[0]?, m.outs[0]? with
       | some t, some o0 =>
         (match processOne o0.descs t p.comps with
          | .error e => .error e
